@@ -10,9 +10,37 @@ def self_attr_accesses(fi, attr):
     return [n for n in walk_no_nested(fi.node) if is_self_attr(n, attr)]
 
 
-def reset_nodes(cfg, fi, attr):
-    """CFG nodes that start ``self.<attr>`` afresh: rebind to a fresh value or .clear()."""
+def resets_attr_always(ctx, callee, attr, _depth=0):
+    """``callee`` (a method on the same object) re-initialises self.<attr> on every path, before any other use of it."""
+    if _depth > 3:
+        return False
+    cfg = ctx.cfg(callee)
+    rs = set(n.id for n in reset_nodes(cfg, callee, attr, ctx, _depth + 1))
+    if not rs:
+        return False
+    if not cfg.post_dominated_by(cfg.entry.id, rs):
+        return False
+    # no use before the reset
+    for n in cfg.nodes:
+        if n.ast is None or n.id in rs or n.kind in ("T", "F", "loop_body", "loop_exit", "finally", "with_exit", "loop", "except", "def"):
+            continue
+        if any(is_self_attr(x, attr) for x in walk_no_nested(n.ast)) and not cfg.all_paths_hit(cfg.entry.id, rs, [n.id]):
+            return False
+    return True
+
+
+def reset_nodes(cfg, fi, attr, ctx=None, _depth=0):
+    """CFG nodes that start ``self.<attr>`` afresh: rebind to a fresh value, .clear(), or a call of a
+    method of the same object that does so on all of its paths."""
     out = []
+    if ctx is not None:
+        for n in cfg.nodes:
+            a = n.ast
+            if n.kind == "stmt" and isinstance(a, ast.Expr) and isinstance(a.value, ast.Call) and isinstance(a.value.func, ast.Attribute) \
+                    and isinstance(a.value.func.value, ast.Name) and a.value.func.value.id == "self":
+                cs = ctx.cg.site_for(fi, a.value)
+                if cs.targets and all(t.cls is not None and resets_attr_always(ctx, t, attr, _depth) for t in cs.targets):
+                    out.append(n)
     for n in cfg.nodes:
         a = n.ast
         if n.kind != "stmt" or a is None:
@@ -83,7 +111,7 @@ def scratch_rule(ctx, r, entry):
                 if any(t.qualname in touching for t in cg.callees(f)):
                     touching.add(f.qualname)
                     changed = True
-        resets = reset_nodes(cfg, entry, attr)
+        resets = reset_nodes(cfg, entry, attr, ctx)
         reset_ids = set(n.id for n in resets)
         uses = []
         for n in cfg.nodes:
